@@ -25,7 +25,7 @@ def run(ctx):
         plans = [(rr.INST_A, "A", be, "optim", 1) for be in ("spqlios-fma", "spqlios-avx", "nayuki-portable", "nayuki-avx", "fftw")] + \
                 [(rr.INST_B, "B", "spqlios-fma", "optim", 1), (rr.INST_B, "B", "fftw", "debug", 3), (rr.INST_C2, "C2", "nayuki-avx", "optim", 2), (rr.INST_G, "G", "spqlios-avx", "optim", 2), (rr.INST_D, "D", "spqlios-avx", "debug", 1), (rr.INST_A, "A", "nayuki-portable", "debug", 2)]
     for inst, tag, be, kind, take in plans:
-        bad, rows = rr.replay(ctx, inst, tag, be, kind, ("boot", "bootv"), ctx.seed, take=take)
+        bad, rows = rr.replay(ctx, inst, tag, be, kind, ("boot", "bootv", "gate"), ctx.seed, take=take)
         if bad and "crash" in bad:
             ctx.violation("%s (%s/%s, instance %s)" % (bad["crash"], be, kind, tag), key="h_boot replay crash %s %s %s" % (tag, be, kind))
         elif bad:
